@@ -200,6 +200,14 @@ class TupV(ListV):
         return "Tuple%r" % (self.items,)
 
 
+class RepeatV(ListV):
+    """itertools.repeat(x) without a count: endless; usable only where something else bounds it (zip)"""
+
+    def __init__(self, value):
+        ListV.__init__(self, [value] * 64)
+        self.value = value
+
+
 class NamedTupV(TupV):
     """instance of a typing.NamedTuple class: a tuple whose items also have names"""
 
@@ -781,7 +789,7 @@ class PatternV:
         self.pattern = pattern
 
 
-BUILTINS = {"object", "next", "iter", "reversed", "print", "input", "id", "setattr", "hasattr", "getattr", "callable", "round", "abs", "super", "map", "filter", "str", "int", "len", "isinstance", "bool", "list", "tuple", "enumerate", "zip", "all", "any", "float", "repr", "type", "dict", "set", "range", "sorted", "min", "max"}
+BUILTINS = {"object", "divmod", "next", "iter", "reversed", "print", "input", "id", "setattr", "hasattr", "getattr", "callable", "round", "abs", "super", "map", "filter", "str", "int", "len", "isinstance", "bool", "list", "tuple", "enumerate", "zip", "all", "any", "float", "repr", "type", "dict", "set", "range", "sorted", "min", "max"}
 
 
 def decorators(fn):
@@ -1770,7 +1778,17 @@ class Ev:
             start = args[1] if len(args) > 1 else kwargs.get("start", 0)
             return ListV([TupV([i + start, x]) for i, x in enumerate(self.iterate(args[0], e))])
         if name == "zip":
-            return ListV([TupV(list(t)) for t in zip(*[self.iterate(a, e) for a in args])])
+            cols = [self.iterate(a, e) for a in args]
+            if cols and all(isinstance(a, RepeatV) for a in args):
+                raise Undecided("zip of endless iterables only")
+            return ListV([TupV(list(t)) for t in zip(*cols)])
+        if name == "divmod" and len(args) == 2:
+            a, b = args
+            if all(isinstance(x, int) and not isinstance(x, bool) for x in args):
+                return TupV(list(divmod(a, b)))
+            if all(is_numeric(x) for x in args):
+                return TupV([Term("//", [a, b]), Term("%", [a, b])])
+            raise AnalysisError("divmod of %r, %r" % (a, b))
         if name == "range":
             if all(isinstance(a, int) for a in args):
                 return ListV(list(range(*args)))
@@ -2015,6 +2033,45 @@ class Ev:
             if op == "contains":
                 return self.compare(ast.In(), args[1], args[0], e)
             return self.compare(table[op], args[0], args[1], e)
+        if name in ("itertools.repeat", "repeat") and args:
+            if len(args) == 2 and isinstance(args[1], int):
+                return ListV([args[0]] * args[1])
+            return RepeatV(args[0])
+        if name in ("itertools.starmap", "starmap") and len(args) == 2:
+            return ListV([self.apply(args[0], list(self.iterate(x, e)), {}, e, None) for x in self.iterate(args[1], e)])
+        if name in ("itertools.compress", "compress") and len(args) == 2:
+            data, sel = self.iterate(args[0], e), self.iterate(args[1], e)
+            return ListV([d for d, s_ in zip(data, sel) if self.truth(s_, e)])
+        if name in ("itertools.islice", "islice") and len(args) in (2, 3) and all(isinstance(x, int) or x is NONE for x in args[1:]):
+            b = [None if x is NONE else x for x in args[1:]]
+            return ListV(self.iterate(args[0], e)[slice(*b)])
+        if name in ("itertools.filterfalse", "filterfalse") and len(args) == 2:
+            return ListV([x for x in self.iterate(args[1], e) if not self.truth(x if args[0] is NONE else self.apply(args[0], [x], {}, e, None), e)])
+        if name in ("itertools.zip_longest", "zip_longest") and args:
+            import itertools as _it
+
+            return ListV([TupV(list(t)) for t in _it.zip_longest(*[self.iterate(a, e) for a in args], fillvalue=kwargs.get("fillvalue", NONE))])
+        if name in ("itertools.product", "product") and args and not kwargs:
+            import itertools as _it
+
+            return ListV([TupV(list(t)) for t in _it.product(*[self.iterate(a, e) for a in args])])
+        if name in ("itertools.accumulate", "accumulate") and len(args) == 1:
+            out, acc = [], None
+            for i, x in enumerate(self.iterate(args[0], e)):
+                acc = x if i == 0 else self.binop(ast.Add(), acc, x, e)
+                out.append(acc)
+            return ListV(out)
+        if name in ("functools.reduce", "reduce") and len(args) in (2, 3):
+            items = self.iterate(args[1], e)
+            if len(args) == 3:
+                acc = args[2]
+            elif items:
+                acc, items = items[0], items[1:]
+            else:
+                raise _Raise(e, "reduce() of empty iterable with no initial value", "TypeError")
+            for x in items:
+                acc = self.apply(args[0], [acc, x], {}, e, None)
+            return acc
         if name in ("itertools.count", "count"):
             start = args[0] if args else 0
             step = args[1] if len(args) > 1 else 1
